@@ -154,6 +154,22 @@ def run_tree(rec, tier, seed, ti, spec, other):
         rec.count("configurations-compared")
         rec.case((ti, "into-own-output"))
         compare(rec, ti, "into-own-previous-output", res, base_out, ref, case)
+        # into a mangled copy of its previous output: CRLF line endings, binary junk, truncated files
+        mangled = os.path.join(work, "out-mangled")
+        shutil.copytree(base_out, mangled)
+        k = 0
+        for d, _dirs, fs in os.walk(mangled):
+            for f in sorted(fs):
+                pth = os.path.join(d, f)
+                data = open(pth, "rb").read()
+                k += 1
+                new = data.replace(b"\n", b"\r\n") if k % 3 == 0 else b"\xff\xfe\x00junk\x80" if k % 3 == 1 else data[: len(data) // 2]
+                open(pth, "wb").write(new)
+        res = drive(stage.REPO, xml_root, mangled)
+        rec.count("configurations-compared")
+        rec.case((ti, "into-mangled-previous-output"))
+        compare(rec, ti, "into-mangled-previous-output", res, mangled, ref, case)
+        shutil.rmtree(mangled, ignore_errors=True)
         # through protocol.py (clean then generate) over another spec's output
         cli_ok = run_cli(rec, ti, work, files, other, ref, case)
         # fresh interpreter import of the baseline output
